@@ -251,3 +251,151 @@ Proof.
   intros v max s R. pose proof (reach_bound _ _ _ R) as Hb. rewrite <- (reach_cap _ _ _ R).
   unfold inv_bound in Hb. lia.
 Qed.
+
+(* ---------------------------------------------------------------- I5: what End has already done *)
+
+Definition past_melt (e : end_pc) : bool :=
+  match e with E_Melted | E_Locked | E_ChanClosed | E_Unlock | E_Finish => true | _ => false end.
+Definition past_chan (e : end_pc) : bool :=
+  match e with E_ChanClosed | E_Unlock | E_Finish | E_Done => true | _ => false end.
+Definition past_close (e : end_pc) : bool :=
+  match e with E_Unlock | E_Finish | E_Done => true | _ => false end.
+
+Definition all_closed (s : state) : Prop := forall p, p < next_peer s -> closedf s p = true.
+
+Definition inv_end (s : state) : Prop :=
+  (chan_closed s = true -> melted s = true) /\
+  (chan_closed s = true -> col_hasconn (col s) = false) /\
+  (forall i e, nth_error (ends s) i = Some e -> past_melt e = true -> melted s = true) /\
+  (forall i e, nth_error (ends s) i = Some e -> past_chan e = true -> chan_closed s = true) /\
+  (forall i e, nth_error (ends s) i = Some e -> past_close e = true -> all_closed s) /\
+  (once s = O_Done -> chan_closed s = true /\ all_closed s).
+
+Lemma past_close_chan : forall e, past_close e = true -> past_chan e = true.
+Proof. destruct e; simpl; auto. Qed.
+Lemma hasconn_crit : forall c, col_hasconn c = true -> col_crit c = true.
+Proof. destruct c; simpl; auto. Qed.
+Lemma close_peer_mono : forall f p q, f q = true -> close_peer f p q = true.
+Proof. intros. unfold close_peer. destruct (Nat.eqb q p); auto. Qed.
+
+Lemma inv_end_step : forall v s l s', inv_lock s -> inv_track s -> inv_end s -> step v s l = Some s' -> inv_end s'.
+Proof.
+  intros v s l s' [Lc Le] Ht (E1 & E2 & E3 & E4 & E5 & E6) H. unfold inv_end, all_closed in *.
+  destruct l; step_inv H; cbn in *.
+  all: repeat match goal with |- _ /\ _ => split end.
+  all: try assumption.
+  all: try (intros; discriminate).
+  all: try (intros j e Hn Hp; ends_cases Hn; try discriminate; try (destruct v; discriminate); eauto; fail).
+  all: try (intros; congruence).
+  all: try (intro Hcc; try (pose proof (E1 Hcc)); try (pose proof (E2 Hcc)); try (destruct (E6 Hcc));
+            try rewrite Heqc in *; cbn in *; first [congruence | auto]; fail).
+  - (* Catch_ok, enders *) intros j e Hn Hp. pose proof (E4 _ _ Hn (past_close_chan _ Hp)) as Hc.
+    specialize (E2 Hc). discriminate.
+  - intros Ho. destruct (E6 Ho) as [Hc _]. specialize (E2 Hc). discriminate.
+  - (* Peer_closes *) intros j e Hn Hp q Hq. apply close_peer_mono. eauto.
+  - intros Ho. destruct (E6 Ho) as [Hc Ha]. split; auto. intros q Hq. apply close_peer_mono. auto.
+  - (* End_once when done *) intros j e Hn Hp. ends_cases Hn; eauto. apply E6; reflexivity.
+  - intros j e Hn Hp. ends_cases Hn; eauto. apply E6; reflexivity.
+  - (* End_wait *) intros j e Hn Hp. ends_cases Hn; eauto. apply E6; reflexivity.
+  - intros j e Hn Hp. ends_cases Hn; eauto. apply E6; reflexivity.
+  - (* End_closechan *) intros _. eapply E3; eauto.
+  - intros _. destruct (col_hasconn (col s)) eqn:Eh; [|reflexivity].
+    pose proof (Lc (hasconn_crit _ Eh)) as L1. pose proof (Le _ _ Heqo eq_refl) as L2. congruence.
+  - (* End_closepeers *) intros j e Hn Hp q Hq.
+    destruct (closedf s q) eqn:Ecl; [apply close_all_mono; assumption|].
+    destruct (Ht q Hq Ecl) as [Hi|Hcol]; [apply close_all_in; assumption|].
+    assert (L1 : lock s = Some T_Col) by (apply Lc; rewrite Hcol; reflexivity).
+    pose proof (Le _ _ Heqo eq_refl) as L2. congruence.
+  - intros Ho. destruct (E6 Ho) as [Hc Ha]. split; auto. intros q Hq. apply close_all_mono. auto.
+  - (* End_finish *) intros _. split; [eapply E4; eauto | eapply E5; eauto].
+Qed.
+
+Lemma reach_end : forall v max s, reachable v max s -> inv_end s.
+Proof.
+  intros v max s R. induction R.
+  - unfold inv_end, all_closed. cbn. repeat split; try discriminate; intros; try discriminate; try lia;
+      destruct i; discriminate.
+  - eapply inv_end_step; eauto using reach_lock, reach_track.
+Qed.
+
+(* ---------------------------------------------------------------- V1: sync.Once discipline, no panic *)
+
+Definition runner_pc (e : end_pc) : bool :=
+  match e with E_Run | E_Melted | E_Locked | E_ChanClosed | E_Unlock | E_Finish => true | _ => false end.
+Definition chan_witness (e : end_pc) : bool :=
+  match e with E_ChanClosed | E_Unlock | E_Finish => true | _ => false end.
+
+Definition inv_once (s : state) : Prop :=
+  (forall i j ei ej, nth_error (ends s) i = Some ei -> nth_error (ends s) j = Some ej ->
+                     runner_pc ei = true -> runner_pc ej = true -> i = j) /\
+  (forall i e, nth_error (ends s) i = Some e -> runner_pc e = true -> once s = O_Running) /\
+  (once s = O_Running -> exists i e, nth_error (ends s) i = Some e /\ runner_pc e = true) /\
+  (once s = O_Free -> melted s = false) /\
+  (forall i, nth_error (ends s) i = Some E_Run -> melted s = false) /\
+  (forall i, nth_error (ends s) i = Some E_Done -> once s = O_Done) /\
+  (forall i, nth_error (ends s) i = Some E_Wait -> once s <> O_Free) /\
+  (chan_closed s = true -> once s = O_Done \/ exists i e, nth_error (ends s) i = Some e /\ chan_witness e = true).
+
+Lemma nth_error_set_nth_neq : forall A (l : list A) i j x, j <> i -> nth_error (set_nth i x l) j = nth_error l j.
+Proof. intros. rewrite nth_error_set_nth. destruct (Nat.eqb_spec j i); [contradiction|reflexivity]. Qed.
+Lemma nth_error_set_nth_eq : forall A (l : list A) i x y, nth_error l i = Some y -> nth_error (set_nth i x l) i = Some x.
+Proof. intros. rewrite nth_error_set_nth. rewrite Nat.eqb_refl. rewrite H. reflexivity. Qed.
+
+Lemma inv_once_frame : forall s s',
+  ends s' = ends s -> once s' = once s -> melted s' = melted s -> chan_closed s' = chan_closed s ->
+  inv_once s -> inv_once s'.
+Proof. intros s s' H1 H2 H3 H4 H. unfold inv_once in *. rewrite H1, H2, H3, H4. exact H. Qed.
+
+Ltac k_auto :=
+  intros;
+  repeat match goal with
+    | Hn : nth_error (set_nth _ _ _) _ = Some _ |- _ => ends_cases Hn
+    | Hn : nth_error (_ ++ [_]) _ = Some _ |- _ => ends_cases Hn
+  end;
+  try discriminate; try congruence; try lia; eauto.
+
+Ltac wit_old Hex :=
+  let j := fresh "j" in let e := fresh "e" in let Hj := fresh "Hj" in let HP := fresh "HP" in
+  destruct Hex as (j & e & Hj & HP);
+  match goal with |- exists _ _, nth_error (set_nth ?i ?en _) _ = Some _ /\ _ =>
+    destruct (Nat.eq_dec j i);
+    [ subst;
+      first [ exfalso; match goal with Heq : nth_error (ends _) i = Some _ |- _ =>
+                rewrite Heq in Hj; inversion Hj; subst; simpl in HP; discriminate end
+            | exists i, en; split; [eapply nth_error_set_nth_eq; eauto | first [reflexivity | congruence]] ]
+    | exists j, e; split; [rewrite nth_error_set_nth_neq; auto | auto] ]
+  end.
+
+Lemma inv_once_step : forall s l s', inv_once s -> step V1 s l = Some s' -> inv_once s'.
+Proof.
+  intros s l s' K H.
+  destruct l;
+    try (step_inv H; (eapply inv_once_frame; [| | | |exact K]; reflexivity)).
+  all: destruct K as (K1 & K2 & K3 & K4 & K5 & K6 & K7 & K8); unfold inv_once.
+  all: step_inv H; cbn in *.
+  all: repeat match goal with |- _ /\ _ => split end.
+  all: try assumption.
+  all: try (k_auto; fail).
+  all: try (intros Hx; first [specialize (K3 Hx) | specialize (K3 eq_refl)]; wit_old K3; fail).
+  all: try (intros Hx; first [specialize (K8 Hx) | specialize (K8 eq_refl)];
+            destruct K8 as [K8|K8]; [left; congruence | right; wit_old K8]; fail).
+  - (* End_call *) intros Hx. destruct (K3 Hx) as (j & e & Hj & HP). exists j, e. split; auto.
+    rewrite nth_error_app1; auto. apply nth_error_Some. congruence.
+  - intros Hx. destruct (K8 Hx) as [|(j & e & Hj & HP)]; auto. right. exists j, e. split; auto.
+    rewrite nth_error_app1; auto. apply nth_error_Some. congruence.
+  - (* End_once, Once free: nobody else is running *)
+    intros a b ea eb Ha Hb Ra Rb. ends_cases Ha; ends_cases Hb; auto; exfalso.
+    + pose proof (K2 _ _ Hb Rb). congruence.
+    + pose proof (K2 _ _ Ha Ra). congruence.
+    + pose proof (K2 _ _ Ha Ra). congruence.
+  - intros _. exists i, E_Run. split; [eapply nth_error_set_nth_eq; eauto | reflexivity].
+  - intros a Ha. ends_cases Ha. pose proof (K6 _ Ha). congruence.
+  - (* End_once, Once running: wait *) intros a Ha. ends_cases Ha. pose proof (K6 _ Ha). congruence.
+  - (* End_once / End_wait when done *) intros a e Ha Ra. ends_cases Ha; [discriminate|]. pose proof (K2 _ _ Ha Ra). congruence.
+  - intros a e Ha Ra. ends_cases Ha; [discriminate|]. pose proof (K2 _ _ Ha Ra). congruence.
+  - (* End_melt *) intros Hx. pose proof (K2 _ _ Heqo eq_refl). congruence.
+  - intros a Ha. ends_cases Ha. exfalso. assert (a = i) by (eapply K1; eauto). contradiction.
+  - (* End_closechan *) intros _. right. exists i, E_ChanClosed. split; [eapply nth_error_set_nth_eq; eauto | reflexivity].
+  - (* End_finish *) intros a e Ha Ra. ends_cases Ha; [discriminate|]. exfalso.
+    assert (a = i) by (eapply K1; eauto). contradiction.
+Qed.
